@@ -84,7 +84,7 @@ def sub_of(case: dict) -> str:
 
 
 def label(case: dict) -> str:
-    return f"{sub_of(case)}|{case['tree']}|{case['mode']}|eb{case['eb']}|ex{case.get('ex', 1)}"
+    return f"{sub_of(case)}|{case['tree']}|{case['mode']}|eb{case['eb']}|ex{case.get('ex', 1)}" + ('|int32' if case.get('intleaf') else '')
 
 
 def prepare(case: dict) -> dict:
@@ -115,7 +115,7 @@ def _dense(op, jax, jnp, np):
         flat[c] = 1.0
         parts, off = [], 0
         for leaf, sz in zip(leaves, sizes):
-            parts.append(jnp.asarray(flat[off:off + sz].reshape(leaf.shape)))
+            parts.append(jnp.asarray(flat[off:off + sz].reshape(leaf.shape)).astype(leaf.dtype))
             off += sz
         y = op.mv(jax.tree.unflatten(treedef, parts))
         cols.append(np.concatenate([np.asarray(v, dtype=np.float64).ravel() for v in jax.tree.leaves(y)]))
@@ -146,7 +146,11 @@ def execute(case: dict) -> dict:
     for blk in case['blocks']:
         n = int(np.prod(blk['sh'], dtype=np.int64))
         arrays.append(jnp.arange(blk['off'] + 1, blk['off'] + 1 + n, dtype=jnp.float32).reshape(tuple(blk['sh'])))
-    structs = [jax.ShapeDtypeStruct(tuple(sh), jnp.float32) for sh in case['xs']]
+    intleaf = bool(case.get('intleaf'))
+    if intleaf:
+        # integer leaves, half-integer float32 blocks: einsum promotes, the matrix is half the reference matrix
+        arrays = [a / 2 for a in arrays]
+    structs = [jax.ShapeDtypeStruct(tuple(sh), jnp.int32 if intleaf else jnp.float32) for sh in case['xs']]
     if case['tree'] == 'leaf':
         blocks, ins = arrays[0], structs[0]
     elif case['tree'] == 'shared2':
@@ -179,10 +183,12 @@ def execute(case: dict) -> dict:
             out['use_exc'] = 'mv ' + _exc(exc)
             return out
         if case['hasden']:
-            want = np.asarray(case['den'], dtype=np.float64)
+            want = np.asarray(case['den'], dtype=np.float64) * (0.5 if intleaf else 1.0)
             out['den_ok'] = _same(mat, want, np)
             if not out['den_ok']:
                 out['den_got'] = mat.tolist()
+    if intleaf:
+        return out       # the transpose of a dtype-changing operator does not swap the structures: only mv is judged
     # ---- transpose
     try:
         op_t = op.T
@@ -252,6 +258,8 @@ def judge(case: dict, obs: dict, verd: fx.Verdicts, stats: dict) -> None:
             return
         if 'den_ok' in obs:
             count('mv_matrix_equal_spec')
+        if case.get('intleaf'):
+            return
     else:
         count('drift_einsum_accepts')   # jnp accepts a string the reference calls invalid: only .T is judged
     # ---- transpose: the adjoint, or rejected
@@ -320,6 +328,12 @@ def run(tier: str, seed: int) -> int:
             cases.append(c)
     strings = {tuple(c['sub']) for c in cases}
     picked, strata = select(cases, tier, seed)
+    # the valid strings with a reference matrix once more on int32 leaves with half-integer float32 blocks
+    ints = [dict(c, intleaf=True, id=fx.case_id({'i': c['id']})) for c in picked
+            if c['valid'] and c['ctor'] and c.get('hasden') and not c.get('light')]
+    if tier == 'quick':
+        ints = ints[::2]
+    picked = picked + ints
     obs = fx.replay('c14', 'execute', picked, procs=fx.NPROC, chunksize=max(4, min(64, len(picked) // (fx.NPROC * 6))))
     t2 = time.time()
     stats: dict = {}
